@@ -15,6 +15,16 @@ def OpKind.stops : OpKind → Bool
   | .stop | .ret | .revert | .unsupported => true
   | _ => false
 
+/-- immediate bytes that follow the opcode -/
+def OpKind.immLen : OpKind → Nat
+  | .push n => n
+  | _ => 0
+
+/-- kinds that set the program counter themselves -/
+def OpKind.isJump : OpKind → Bool
+  | .jump | .jumpi => true
+  | _ => false
+
 /-- kinds with constant gas 0 whose dynamic gas is at least 1 -/
 def OpKind.dynPaid : OpKind → Bool
   | .sstore | .log _ | .exp => true
@@ -41,6 +51,12 @@ def entryOK (n : Nat) (i : OpInfo) : Bool :=
   && (decide (1 ≤ i.gas) || i.kind.stops || (i.kind.dynPaid && i.dyn))
   -- a memory size function comes with a dynamic gas function
   && (!i.memsz || i.dyn)
+  -- PUSHn carries exactly the immediate length the jump destination analysis skips
+  && (pushLen (UInt8.ofNat n) == i.kind.immLen)
+  -- the `jumps` flag sits on the kinds that set the program counter themselves
+  && (i.kind.isUnsupported || (i.jumps == i.kind.isJump))
+  -- nested calls have a dynamic gas function (it fixes `callGasTemp`)
+  && (!i.kind.isCall || i.dyn)
 
 def tableOK (post : Bool) : Bool :=
   (List.range 256).all fun n => match opInfoN post n with
